@@ -299,7 +299,10 @@ func (c *Case) Guard(name string, fn func()) (ok bool) {
 	defer func() {
 		if p := recover(); p != nil {
 			st := string(debug.Stack())
-			if strings.Contains(st, GolibPath) {
+			if strings.Contains(fmt.Sprint(p), "range function continued iteration") {
+				// the Go runtime caught an iterator that kept calling yield after it returned false
+				c.Failf("iterator-ignores-break/"+name, "%s: iterator continued after the loop body asked it to stop (%v)", name, p)
+			} else if strings.Contains(st, GolibPath) {
 				c.Failf("panic/"+name, "%s panicked: %v\n%s", name, p, trimStack(st))
 			} else {
 				c.r.HarnessFailure(fmt.Sprintf("%s[%d] %s: harness panic: %v\n%s", c.Engine, c.Index, name, p, trimStack(st)))
